@@ -155,6 +155,12 @@ func (ex *Exec) closeFacts(asserts []*Term) []*Term {
 						return
 					}
 					switch x.Name {
+					case "errwraps":
+						// a sentinel error value (errors.New at package level) wraps nothing
+						for _, id := range ex.G.errIDs {
+							add(Implies(Eq(x.Args[0], IntC(id)), Not(x)))
+						}
+						add(Implies(Eq(x.Args[0], IntC(0)), Not(x)))
 					case "blen":
 						add(Ge(x, IntC(0)))
 						add(Le(x, IntB(Pow2(40)))) // A14
